@@ -178,6 +178,21 @@ _MORE = {
     'C08': ' A quarter of the trajectories contain one degenerate frame (all zeros, or a carbonyl O placed on its C); about one run in eighty is a long trajectory of the whole '
            'molecule (240-420 frames, result arrays beyond 2^24 elements) judged on a sample of frames.',
 }
+_MORE2 = {
+    'C18': ' Reads are issued as read() or through the handle\'s read_as_traj(); DCD header counters may be stale; NetCDF comes in AMBER\'s own layout, the classic / 64-bit / HDF5-based '
+           'container or with packed (scale_factor) variables; DTR is also read as a .stk stack of two overlapping frame sets; about one file in eighty has 4100-6000 frames.',
+    'C02': ' List loads also run over the parts of a restarted run (a file beginning with the frame its predecessor ends with) with discard_overlapping_frames; single-frame restart files '
+           '(.rst7/.restrt/.inpcrd/.ncrst) are loaded with what their loaders offer (atom subsets, lists).',
+    'C19': ' The output path may already hold a longer file of the same format or unrelated bytes; a refused ragged call may be repeated; HDF5 files may carry the reporter fields '
+           '(velocities, energies, temperature) as part of the schema; 3 % of the write calls carry 20-150 frames; the first call may carry none.',
+    'C20': ' Paths may be symbolic links, or reach the file through a linked directory and "..", the optional netCDF4 package may be hidden (scipy.io fallback), saved trajectories may '
+           'have no unit cell.',
+    'C03': ' Joins are also made with check_topology=False; remove_solvent with exclude=; coordinates are also written in place (t.xyz[...] += shift) between centrings.',
+    'C17': ' Savers are also called with their format keywords (pdb header/ter/bfactors, gro precision); TRR dialects include virial and pressure tensors.',
+    'C08': ' 30 % of the trajectories tumble (every frame in another orientation, some exact half-turns); superposition is also run with the reference inside the mobile trajectory.',
+}
+for _k, _v in _MORE2.items():
+    _MORE[_k] = _MORE.get(_k, '') + _v
 for _k, _v in _MORE.items():
     META[_k]['rule'] += _v
 META['C18']['assumptions'] = COMMON_ASSUMPTIONS + ['files read by the handles are written by mdtraj\'s own writers and, for the foreign dialects, rewritten byte for byte by '
